@@ -463,6 +463,12 @@ func (x *Exec) Run() {
 		fr.names[p.Name()] = v
 		x.entry[p.Name()] = v
 	}
+	if fn.Synthetic == "package initializer" {
+		// verify the first (and only effective) execution: the init guard is still false
+		if g, ok := fn.Pkg.Members["init$guard"].(*ssa.Global); ok {
+			x.storePtr(st, x.globalRef(g), types.Typ[types.Bool], TV{"false", types.Typ[types.Bool]})
+		}
+	}
 	// preconditions
 	env := x.topEnv(st)
 	for _, c := range x.spec.Requires {
